@@ -575,6 +575,59 @@ func (e *Enc) compileCallExpr(c *SpecCtx, x *Expr) CE {
 			return CE{T: "(chcap " + a.T + ")", Typ: tMath}
 		}
 		fail("%s: len of %s", c.what, a.Typ)
+	case "sameelems": // sameelems(s): the backing array of s holds what it held in old() (array equality, no quantifier)
+		argn(1)
+		ce := e.compile(c, x.Args[0])
+		if ce.Typ != nil {
+			if _, ok := ce.Typ.Underlying().(*types.Pointer); ok {
+				ce = e.deref(c, ce)
+			}
+		}
+		u, ok := ce.Typ.Underlying().(*types.Slice)
+		if !ok {
+			fail("%s: sameelems of non-slice %s", c.what, ce.Typ)
+		}
+		k := e.B.heapName(u.Elem())
+		srt := e.B.heapSort(u.Elem())
+		h := e.get(c.st, k, srt)
+		h0 := e.get(c.old, k, srt)
+		return CE{T: fmt.Sprintf("(= (select %s (sarr %s)) (select %s (sarr %s)))", h, ce.T, h0, ce.T), Typ: tBool}
+	case "arrframe": // arrframe(s1, s2, ...): every object of s1's element heap other than the listed slices' arrays is as in old()
+		if len(x.Args) == 0 {
+			fail("%s: arrframe needs a slice", c.what)
+		}
+		var refs []Term
+		var elem types.Type
+		for _, a := range x.Args {
+			ce := e.compile(c, a)
+			if ce.Typ != nil {
+				if _, ok := ce.Typ.Underlying().(*types.Pointer); ok {
+					ce = e.deref(c, ce)
+				}
+			}
+			u, ok := ce.Typ.Underlying().(*types.Slice)
+			if !ok {
+				fail("%s: arrframe of non-slice %s", c.what, ce.Typ)
+			}
+			if elem == nil {
+				elem = u.Elem()
+			}
+			refs = append(refs, "(sarr "+ce.T+")")
+		}
+		q := e.B.freshName("q.r")
+		var neq []Term
+		for _, r := range refs {
+			neq = append(neq, "(not (= "+q+" "+r+"))")
+		}
+		k := e.B.heapName(elem)
+		srt := e.B.heapSort(elem)
+		h := e.get(c.st, k, srt)
+		h0 := e.get(c.old, k, srt)
+		if h == h0 {
+			return CE{T: "true", Typ: tBool}
+		}
+		return CE{T: fmt.Sprintf("(forall ((%s Int)) (! (=> %s (= (select %s %s) (select %s %s))) :pattern ((select %s %s))))",
+			q, and(neq...), h, q, h0, q, h, q), Typ: tBool}
 	case "mapsframe": // mapsframe(m1, m2, ...): every map of m1's type other than the listed ones is as in old()
 		if len(x.Args) == 0 {
 			fail("%s: mapsframe needs a map", c.what)
@@ -805,6 +858,12 @@ func (e *Enc) declSpecFun(sf *SpecFun) {
 }
 
 func (e *Enc) lookupType(name string) types.Type {
+	if strings.HasPrefix(name, "*") {
+		if t := e.lookupType(name[1:]); t != nil {
+			return types.NewPointer(t)
+		}
+		return nil
+	}
 	if obj := types.Universe.Lookup(name); obj != nil {
 		if tn, ok := obj.(*types.TypeName); ok {
 			return tn.Type()
